@@ -16,6 +16,8 @@ THEOREMS = ["Lou.C18." + n for n in [
     "index_order_irrelevant", "index_order_irrelevant_none", "dominating_is_returned",
     # lou_getTableInfo
     "tableInfo_first", "tableInfo_none", "parser_lines_descending",
+    # no type confusion (fix of C18-F3): parsers and readers agree on which keys are language tags
+    "langTagParsed_eq_isLangKey", "lang_keys_extracted",
     # the hypotheses are forced: negations of the unrestricted statements on witnesses
     "tableInfo_first_fails_with_dup", "tableInfo_first_fails_on_bytes", "exact_score_fails_with_two_values",
     "exact_found_fails_with_many_languages", "dominating_but_not_positive",
@@ -32,14 +34,19 @@ CLAIM = dict(
           "byte-for-byte differential of INDEX/FIND/FINDS/INFO/LIST between the ASan/UBSan harness and the compiled model "
           "over generated header sets x queries x every index order; the property text is evaluated on the "
           "implementation's results as the search oracle."),
-    note=("Keys that are proper prefixes of language/region/locale are outside the model (type confusion in the C code, "
-          "finding C18-F3); an empty index is modelled with LOUIS_TABLEPATH pointing to an empty directory; "
-          "lou_getTableInfo breaks the first-occurrence clause when a later line repeats an earlier key:value (C18-F1) "
-          "and never answers for the key `locale` (C18-F2); both are listed in known_findings.json."),
+    note=("An empty index is modelled with LOUIS_TABLEPATH pointing to an empty directory; lou_getTableInfo breaks the "
+          "first-occurrence clause when a later line repeats an earlier key:value (C18-F1) and never answers for the key "
+          "`locale` (C18-F2); a table declaring ucs2 and ucs4 ties on a ucs4 query (C18-F4); all three are listed in "
+          "known_findings.json. Keys that are prefixes of language/region/locale (C18-F3, fixed in liblouis) are ordinary "
+          "keys in the model and part of the generators' key pool."),
     technique="Lean 4 proof over a hand-written model + regex-extracted constants + differential testing + oracle search",
     design="DESIGN.md §7 C18")
 
 KEYS = ["language", "region", "locale", "type", "contraction", "grade", "dots", "unicode-range", "x"]
+# keys that are prefixes / case variants of the three language-tag names (finding C18-F3): ordinary keys
+# unless the whole key is one of the names
+PREFIX_KEYS = ["l", "la", "reg", "loc", "locale", "LANGUAGE"]
+POOL = KEYS + PREFIX_KEYS
 VALS = ["a", "b", "en", "en-US", "de", "*"]
 LANG = ("language", "region", "locale")
 hx = common.hexbytes
@@ -364,15 +371,15 @@ def gen_exhaustive(universes, max_tables, tag):
     return cases
 
 
-def rand_fields(rng, n, keys=KEYS, vals=VALS, star_ok=True):
+def rand_fields(rng, n, keys=None, vals=VALS, star_ok=True):
     f = []
     for _ in range(n):
-        k = rng.choice(keys)
+        k = rng.choice(keys or KEYS) if (keys or rng.random() < 0.85) else rng.choice(PREFIX_KEYS)
         if k == "unicode-range" and rng.random() < 0.6:
             v = rng.choice(["ucs2", "ucs4"])
         else:
             v = rng.choice(vals)
-        if v == "*" and (k not in LANG or not star_ok) and rng.random() < 0.9:
+        if v == "*" and (k.lower() not in LANG or not star_ok) and rng.random() < 0.9:
             v = rng.choice(["a", "b", "en"])
         f.append((k, v))
     return f
@@ -402,7 +409,7 @@ def rand_header(rng, name, base=None):
         lines.append(("+", k, rng.choice(["", " ", " ", "  ", "\t"]), v))
     for _ in range(rng.choice([0, 0, 0, 1, 1, 2])):
         k, v = rand_fields(rng, 1, star_ok=False)[0]
-        if k in LANG:
+        if k.lower() in LANG:
             v = rng.choice(["en", "de", "en-US", "a"])
         elif rng.random() < 0.5:
             v = rng.choice(["hello  world", "some text ", "a\tb", "A", "x y z", "a"])
@@ -413,7 +420,7 @@ def rand_header(rng, name, base=None):
     if rng.random() < 0.3:
         lines.append(("code", rng.choice(["include foo.cti", "space \\s 0", "x"])))
         if rng.random() < 0.5:
-            lines.append(("+", rng.choice(KEYS), " ", "a"))
+            lines.append(("+", rng.choice(POOL), " ", "a"))
     eol = b"\r\n" if rng.random() < 0.1 else b"\n"
     return Header(name, lines, eol=eol, final_eol=rng.random() < 0.9)
 
@@ -446,11 +453,14 @@ BAD_LINES = [b"#+x", b"#+x:", b"#+x: ", b"#+ x:a", b"#+x :a", b"#+x:a b", b"#+x:
              b"#+locale:en.US", b"#-x", b"#-x:", b"#-x:   ", b"#-language: not a tag", b"#--x:a", b"#-x:a\x00b", b"#+x:a\x00",
              b"#+x\x00:a", b"#+x:\xe9", b"#+\xe9:a", b"#+x:a\r", b"#+x::a", b"#+x:a:b", b"#+unicode-range:ucs4",
              b"#+unicode-range:UCS2", b"#+Language:EN", b"#+LOCALE:en-us", b"#+x:" + b"a" * 2100, b"#" + b"c" * 2100,
+             b"#+l:*", b"#+l:en", b"#+la: e_n", b"#+reg:US", b"#+loc:en.US", b"#+LANGUAGE:*", b"#+LANGUAGE:e_n", b"#+languag:*",
+             b"#+languagee:en", b"#-l: not a tag", b"#-reg:*",
              b"#+x:" + b"a" * 2042, b"#+x:" + b"a" * 2043, b"#+x:" + b"a" * 2044]
 BAD_QUERIES = [b"x", b"x:", b":a", b"x:a:b", b"x:a!", b"x::a", b"x: a", b" x:a", b"x:a ", b"x:a\ty:b\n", b"language:*",
                b"language:e_n", b"language:en-", b"language:abcdefghi", b"locale:en-US language:de",
                b"language:de locale:en-US", b"x:a x:b", b"x:b x:a", b"X:A", b"unicode-range:ucs4", b"unicode-range:ucs2",
                b"unicode-range:ucs2 unicode-range:ucs4", b"x:a\x00y:b", b"\xe9:a", b"x:\xe9", b"", b" ", b"\n",
+               b"l:en", b"reg:US", b"loc:en.US", b"l:e_n", b"LANGUAGE:en", b"LANGUAGE:e_n", b"languag:en", b"la:en l:en",
                b"language:en-US-x-foo", b"language:en-a-b-c-d-e-f", b"region:US", b"language:EN", b"LANGUAGE:en"]
 
 
@@ -506,7 +516,7 @@ def gen_random(rng, n, tag):
         infos = []
         for hi, h in enumerate(H):
             ks = [l[1] for l in h.lines if l[0] in ("+", "-")]
-            for k in set(ks[:3] + [rng.choice(KEYS)]):
+            for k in set(ks[:3] + [rng.choice(POOL)]):
                 if k.lower() == "locale":
                     k = rng.choice(["language", "region"])
                 infos.append((hi, k.encode()))
@@ -519,7 +529,7 @@ def gen_ladders(rng, n, tag):
     (same / absent / other value) or carry extra unrelated keys"""
     cases = []
     for i in range(n):
-        ks = rng.sample([k for k in KEYS if k != "locale"], rng.choice([3, 4]))
+        ks = rng.sample([k for k in KEYS if k != "locale"] + ["l", "la", "reg", "loc"], rng.choice([3, 4]))
         q = [(k, rng.choice(["a", "en", "de"]) if k in LANG else (rng.choice(["ucs2", "ucs4"]) if k == "unicode-range" else rng.choice(["a", "b"])))
              for k in ks]
         H = []
@@ -532,7 +542,7 @@ def gen_ladders(rng, n, tag):
             elif r < 0.6:
                 f[j] = (f[j][0], "b" if f[j][1] != "b" else "de")
             elif r < 0.8:
-                others = [k for k in KEYS if k not in ks and k != "locale"]
+                others = [k for k in KEYS + ["l", "reg"] if k not in ks and k != "locale"]
                 f.append((rng.choice(others), "a"))
             rng.shuffle(f)
             H.append(Header("t%d" % (ti + 1), [("+", k, " ", v) for k, v in f]))
@@ -565,11 +575,12 @@ def witnesses():
     W.append((MetaCase("w-dominating-not-positive", [h1, h2], [(b"x:a", [("x", "a")])], [], "witness"),
               "dominating_but_not_positive",
               lambda res: all(r is not None and (r[0] in ("I", "LS") or r[1] in (None, [])) for r in res)))
-    # the type confusion: a key that is a proper prefix of language/region/locale (model: UNSUPPORTED)
-    h = Header("w6", [("+", "l", " ", "en")])
-    W.append((MetaCase("w-prefix-key", [h], [(b"l:en", None)], [(0, b"l")], "witness"),
-              "type confusion on prefix keys (no theorem: outside the model)",
-              lambda res: res[-1] is not None and res[-1][1] != b"en"))
+    # regression for C18-F3 (fixed in liblouis): a proper prefix of language/region/locale is an ordinary key
+    h = Header("w6", [("+", "l", " ", "en"), ("+", "reg", " ", "e_n")])
+    W.append((MetaCase("w-prefix-key", [h], [(b"l:en", [("l", "en")]), (b"reg:e_n l:en", [("reg", "e_n"), ("l", "en")])],
+                       [(0, b"l"), (0, b"reg")], "witness"),
+              "prefix keys are ordinary keys (C18-F3 fixed)",
+              lambda res: res[-1] is not None and res[-1][1] == b"e_n" and res[-2][1] == b"en"))
     return W
 
 
@@ -672,10 +683,10 @@ def oracle(mc, res, v):
                 kl = key.lower()
                 if kl == "locale":
                     sig = "C18:info-first-occurrence:locale-key"
-                elif any(w.startswith(kl) and w != kl for w in LANG) and kl:
-                    sig = "C18:info-first-occurrence:prefix-key"
                 elif has_dup_feature(h, key):
                     sig = "C18:info-first-occurrence:dup-feature"
+                elif any(w.startswith(kl) and w != kl for w in LANG) and kl:
+                    sig = "C18:info-first-occurrence:prefix-key"     # C18-F3, fixed: an ordinary violation
                 else:
                     sig = "C18:info-first-occurrence"
                 v.violation(sig, "lou_getTableInfo(%s, %r) = %r but the first occurrence of the key in the file has value %r" %
@@ -691,8 +702,10 @@ QUICK_UNIVERSES = [
     (("language", "region"), ("en", "en-US")),
     (("locale", "language"), ("en-US", "de")),
     (("unicode-range", "grade"), (("ucs2", "ucs4"), ("a", "b"))),
+    (("l", "reg"), ("en", "a")),
 ]
 THOROUGH_UNIVERSES = QUICK_UNIVERSES + [
+    (("LANGUAGE", "loc"), ("en", "en-US")),
     (("language", "type"), ("*", "en")),
     (("region", "locale"), ("en", "en-US")),
     (("dots", "contraction"), ("a", "en-US")),
@@ -791,7 +804,7 @@ def run(tier):
     process(first)
     if not quick:
         process(gen_exhaustive(THOROUGH_3KEY, 2, "e3"))
-    n_random, n_ladder, n_malformed = (2500, 400, 600) if quick else (100000, 6000, 12000)
+    n_random, n_ladder, n_malformed = (1600, 300, 400) if quick else (100000, 6000, 12000)
     chunk = 2500
     done = 0
     while done < n_random:
@@ -812,6 +825,8 @@ def run(tier):
     v.obligation("correspondence: model line == implementation line for every INDEX/LIST/FIND/FINDS/INFO op", not mism,
                  "; ".join("case %s op %r: impl %r model %r files %r" % (
                      m.id, m.hlines[k], hl, ml, {h.name: h.data()[:200] for h in m.headers}) for m, k, hl, ml in mism[:4]))
+    v.obligation("the model answers every operation (no UNSUPPORTED)", dist["model_unsupported"] == 0,
+                 "%d operations answered UNSUPPORTED" % dist["model_unsupported"])
     v.obligation("no sanitizer fault or crash while running the metadata operations", not faults,
                  "; ".join("%s: %s %s" % (m.id, f.get("kind"), f.get("frame")) for m, f in faults[:4]))
     for m, k, hl, ml in mism[:3]:
@@ -828,7 +843,6 @@ def run(tier):
                      "dominating table was returned in every order, distinct (key, value, position) first-occurrence answers")
     v.cov["model_ops_compared"] = nlines[0]
     v.assumptions += [
-        "keys that are proper prefixes of language/region/locale are outside the model (C type confusion, reported as a finding)",
         "an empty index: LOUIS_TABLEPATH points to an empty directory, so lou_findTable's implicit indexing finds nothing",
         "exact_found/tableInfo_first carry the no-duplicate hypotheses the code forces (negations proved on witnesses and "
         "reproduced on the implementation by the `witness` stream)",
